@@ -196,6 +196,20 @@ func (sc *Scope) lookup1(name string) (Val, bool) {
 			}
 		}
 		if ambiguous {
+			// a variable that lives in a cell: its current content
+			for i := range cands {
+				if cands[i].isAddr {
+					if _, ok := fr.env[cands[i].val]; ok {
+						v := fr.eval(cands[i].val)
+						if t, isT := v.(*Term); isT {
+							return t, true
+						}
+						return c.load(fr, sc.state(), v, 0), true
+					}
+				}
+			}
+		}
+		if ambiguous {
 			unsup("name %q is ambiguous at function exit (several bindings); use a parameter or result name", name)
 		}
 		if best != nil {
@@ -723,6 +737,29 @@ func (c *VCtx) translateCall(sc *Scope, x *ECall) Val {
 	case "calltime":
 		h := c.heap(st, "G:calltime", ArrSort(SRef, SInt))
 		return Select(h, arg(0))
+	case "recvs":
+		// recvs(ch): number of values this invocation received from channel ch (incl. the closed-channel zero value)
+		h := c.heap(st, "G:recvs", ArrSort(SRef, SInt))
+		return Select(h, arg(0))
+	case "lastarg":
+		f := arg(0)
+		iv, ok := x.Args[1].(*EInt)
+		if !ok {
+			unsup("lastarg needs a literal index")
+		}
+		var rs Sort = SRef
+		if f.GT != nil {
+			if sig, ok := f.GT.Underlying().(*types.Signature); ok {
+				var k int
+				fmt.Sscanf(iv.V, "%d", &k)
+				if k < sig.Params().Len() {
+					rs = sortOf(sig.Params().At(k).Type())
+				}
+			}
+		}
+		hn := fmt.Sprintf("G:lastarg:%s:%s", iv.V, rs)
+		h := c.heap(st, hn, ArrSort(SRef, rs))
+		return Select(h, f)
 	case "lastret":
 		// lastret(f, i): i-th result of the most recent call of the opaque function value f
 		f := arg(0)
